@@ -71,7 +71,9 @@ def check(case):
         if inv:
             # the known mechanisms live in uncompute_all's replay; a scratch qubit that is handed out or
             # listed as free while not |0> *before* the replay is something else
-            pred, cls = None, f"{inv[0][0]}@{inv[0][1]}:q{inv[0][2]}"
+            icls = CC.LOG.get("inv_class")
+            pred = "c03_inline_uncompute_stale_control" if icls == "inline-stale-control" else None
+            cls = f"{inv[0][0]}@{inv[0][1]}:q{inv[0][2]}:{icls}"
         cnt[f"dirty:{cls}"] = 1
         q, kind, row, nrows = o.dirty[0]
         asg = {nm: (row >> i) & 1 for i, nm in enumerate(names)}
